@@ -1,6 +1,10 @@
 package main
 
-import "strings"
+import (
+	"fmt"
+	"os"
+	"strings"
+)
 
 // A process's first calls may leave something behind (lazily built tables, caches sized from the
 // configuration in effect, "last value" shortcuts). Before its own work every driver process
@@ -17,25 +21,57 @@ var driverPkgs = map[string][]string{
 	"c16": {"date", "roman", "sem", "size", "uu"}, "c17": {"date", "roman", "sem", "size", "uu"}, "c18": {"date", "roman", "sem", "size", "uu"},
 }
 
+// zoneSweep: in a process whose time zone is set (TZ), every day of 2008-2024 goes through the
+// driver's main operation regardless of how the driver shares its work among the shards: days on
+// which local midnight does not exist are ordinary calendar days for a date type.
+func zoneSweep(d *Drv, driver string) {
+	if os.Getenv("TZ") == "" || concMode {
+		return
+	}
+	mdays := []int{31, 28, 31, 30, 31, 30, 31, 31, 30, 31, 30, 31}
+	for y := 2008; y <= 2024; y++ {
+		for m := 1; m <= 12; m++ {
+			n := mdays[m-1]
+			if m == 2 && y%4 == 0 {
+				n = 29
+			}
+			for dd := 1; dd <= n; dd++ {
+				switch driver {
+				case "c11":
+					d.Do(Ev{"op": "date.bin", "a": []int{y, m, dd}})
+				case "c01":
+					d.Do(Ev{"op": "date.rt", "y": y, "m": m, "d": dd, "chain": 0})
+				case "c09":
+					d.Do(Ev{"op": "date.parse", "in": B(fmt.Sprintf("%04d-%02d-%02d", y, m, dd)), "rule": dd % 2, "T": []string{"s", "b"}[m%2]})
+				}
+			}
+		}
+		d.S.Boundary()
+	}
+}
+
 func prologue(d *Drv, driver string) {
-	variant := d.Shard % 4
-	if variant == 0 {
+	zoneSweep(d, driver)
+	v8 := d.Shard % 8
+	if v8 == 0 {
 		return // this process starts with its own work
 	}
+	variant := v8 % 4 // 0: default limits, 1: limit 1, 2: no limit, 3: limit 7
+	shift := v8 / 4   // which rule the very first call carries
 	for _, pkg := range driverPkgs[driver] {
-		max := []int{0, 1, 0, 7}[variant]
+		max := []int{map[string]int{"date": 10, "roman": 128, "sem": 1024, "size": 128, "uu": 45}[pkg], 1, 0, 7}[variant]
 		switch pkg {
 		case "date":
 			d.Do(Ev{"op": "date.set", "max": max})
 			for i, in := range []string{"2024-02-29", "20240229", "123456789-12-31", "2024-02-30", "", "x"} {
-				d.Do(Ev{"op": "date.parse", "in": B(in), "rule": i % 2, "T": []string{"s", "b"}[i%2]})
+				d.Do(Ev{"op": "date.parse", "in": B(in), "rule": (i + shift) % 2, "T": []string{"s", "b"}[i%2]})
 			}
 			d.Do(Ev{"op": "date.rt", "y": 1999, "m": 12, "d": 31, "chain": 0})
 			d.Do(Ev{"op": "date.set", "max": 10})
 		case "roman":
 			d.Do(Ev{"op": "roman.set", "max": max, "fmt": []int{0, 1, 62, 127}[variant]})
 			for i, in := range []string{"MCMXCIV", "mmxxiv", "", "IIII", "VX", strings.Repeat("M", 200)} {
-				d.Do(Ev{"op": "roman.parse", "in": B(in), "rule": i % 2, "T": []string{"s", "b"}[i%2]})
+				d.Do(Ev{"op": "roman.parse", "in": B(in), "rule": (i + shift) % 2, "T": []string{"s", "b"}[i%2], "vfirst": shift == 1})
 			}
 			d.Do(Ev{"op": "roman.paths", "n": 1994})
 			d.Do(Ev{"op": "roman.paths", "n": 0})
@@ -43,14 +79,20 @@ func prologue(d *Drv, driver string) {
 		case "sem":
 			d.Do(Ev{"op": "sem.set", "max": max})
 			for i, in := range []string{"1.2.3", "v1.2.3-rc.1+b.7", "1.2", "01.2.3", "1.0.0-alpha.beta", ""} {
-				d.Do(Ev{"op": "sem.parse", "in": B(in), "fn": []string{"Parse", "ParseVersion", "ParseTag", "DefaultParser"}[i%4], "rule": i % 2, "T": []string{"s", "b"}[i%2]})
+				d.Do(Ev{"op": "sem.parse", "in": B(in), "fn": []string{"Parse", "ParseVersion", "ParseTag", "DefaultParser"}[i%4], "rule": (i + shift) % 2, "T": []string{"s", "b"}[i%2]})
 			}
 			d.Do(Ev{"op": "sem.set", "max": 1024})
 		case "size":
 			sizeSet(d, variant == 3, variant >= 2, variant == 3, []int{6, 0, 15, 2}[variant], max, []int{16, 1, 0, 2}[variant])
-			for i, in := range []string{"12 345 KiB", "1024", `"1KiB"`, `{"value":1,"unit":"KiB"}`, `{"a":1,"b":2,"value":1,"unit":"B"}`, "16EiB", ""} {
+			texts := []string{"12 345 KiB", "1024", `"1KiB"`, `{"value":1,"unit":"KiB"}`, `{"a":1,"b":2,"value":1,"unit":"B"}`, "16EiB", ""}
+			rules := []int{0, 6, 15, 6, 15, 9, 2}
+			if shift == 1 { // the first parse of the process is an object
+				texts[0], texts[3] = texts[3], texts[0]
+				rules[0], rules[3] = rules[3], rules[0]
+			}
+			for i, in := range texts {
 				doc, wf := abstractDoc([]byte(in))
-				d.Do(Ev{"op": "size.parse", "in": B(in), "rule": []int{0, 6, 15, 9}[i%4], "T": []string{"s", "b"}[i%2], "doc": doc, "wf": wf})
+				d.Do(Ev{"op": "size.parse", "in": B(in), "rule": rules[i], "T": []string{"s", "b"}[i%2], "doc": doc, "wf": wf})
 			}
 			// marshalling round trips are stated for the default rule and a limit that admits the output
 			sizeSet(d, variant == 3, variant >= 2, variant == 3, 6, 128, 16)
@@ -60,7 +102,7 @@ func prologue(d *Drv, driver string) {
 		case "uu":
 			d.Do(Ev{"op": "uu.set", "max": max})
 			for i, in := range []string{"123e4567-e89b-12d3-a456-426614174000", "urn:uuid:123e4567-e89b-12d3-a456-426614174000", "123E4567-E89B-12D3-A456-426614174000", "123e4567e89b12d3a456426614174000", ""} {
-				d.Do(Ev{"op": "uu.parse", "in": B(in), "rule": i % 4, "T": []string{"s", "b"}[i%2]})
+				d.Do(Ev{"op": "uu.parse", "in": B(in), "rule": (i + shift) % 4, "T": []string{"s", "b"}[i%2]})
 			}
 			d.Do(Ev{"op": "uu.fmt", "id": make([]int, 32)})
 			d.Do(Ev{"op": "uu.set", "max": 45})
